@@ -190,10 +190,14 @@ def _damage(rng, text, k):
 
 def gen(rng, tier, i):
     p = Plan()
-    p.file('mcfg.h', mcfg({}))
+    helper = rng.random() < 0.25
+    p.file('mcfg.h', mcfg({'LOGERR_LOADS': 1} if helper else {}))
     p.cfg('Port', '4000:telnet')
     p.cfg('MaxEvaluationCost', 5000000)
     p.cfg('MaxInheritDepth', 8)
+    if helper:
+        p.cfg('SaveBinaryDir', '/bin')
+        p.file('x/lhelp.c', '#pragma save_binary\nint ping() { return 1; }\n')
     if rng.random() < 0.3: p.cfg('MaxLocalVariables', rng.choice((25, 30, 40)))     # not below 25: the verification mudlib itself needs them
     p.opt('max_instr', 100000000)
     p.opt('fault_exempt_master', 0)
@@ -203,7 +207,7 @@ def gen(rng, tier, i):
     p.file('x/self2.h', '#include "/x/self2.h"\n#include "/x/self2.h"\n')
     for d in range(12): p.file('x/deep%d.h' % d, '#include "/x/deep%d.h"\n' % (d + 1) if d < 11 else 'int zdeep;\n')
     p.cycle(connect(0, 0))
-    p.cycle(send(0, 'do name u0;comp p0 /probe\r\n'))
+    p.cycle(send(0, 'do name u0;%scomp p0 /probe\r\n' % ('load /x/lhelp;' if helper else '')))
     p.cycle(send(0, 'do xco p0 /probe run;pinfo /probe;xreload /probe\r\n'))
     n = rng.randint(5, 25 if tier == 'quick' else 60)
     kinds = []
@@ -247,11 +251,13 @@ def check(plan, res):
     errs_since = 0; cur = None
     comp = {}
     pending_errs = []
+    read_fault = False
     for e in res.events:
+        if e.kind == 'fs_fault': read_fault = True      # the source could not be read to its end: what the compiler makes of the part it got is not judged
         if e.kind != 'R': continue
         w = e.rest.split(' ')
         if w[0] == 'DO' and ' comp ' in e.rest:
-            pending_errs = []
+            pending_errs = []; read_fault = False
         elif w[0] in ('LOGERR', 'ERR'):
             pending_errs.append(e.rest[:160])
         elif w[0] == 'COMP':
@@ -262,6 +268,9 @@ def check(plan, res):
                 hard = [x for x in pending_errs if 'Warning' not in x]
                 if not ok and err == '0' and not hard:
                     bad('outcome', 'compilation %s (%s) yielded no object and reported no error' % (cid, kd), 'outcome/silent-failure')
+                hardc = [x for x in hard if x.startswith('LOGERR ')]
+                if ok and hardc and not read_fault:
+                    bad('outcome', 'compilation %s (%s) reported the compile error %r and yielded an object all the same' % (cid, kd, hardc[0][:120]), 'outcome/loaded-despite-error')
             pending_errs = []
     for e in res.events:
         if e.kind == 'R' and e.rest.startswith('COMP u') and ' ok=0' in e.rest:
